@@ -3414,21 +3414,25 @@ evbuffer_add_file(struct evbuffer *buf, int fd, ev_off_t offset, ev_off_t length
 int
 evbuffer_setcb(struct evbuffer *buffer, evbuffer_cb cb, void *cbarg)
 {
+	struct evbuffer_cb_entry *ent = NULL;
+
+	/* Allocate first: a failure must not drop the existing callbacks. */
+	if (cb) {
+		ent = mm_calloc(1, sizeof(struct evbuffer_cb_entry));
+		if (!ent)
+			return -1;
+		ent->cb.cb_obsolete = cb;
+		ent->cbarg = cbarg;
+		ent->flags = EVBUFFER_CB_ENABLED|EVBUFFER_CB_OBSOLETE;
+	}
+
 	EVBUFFER_LOCK(buffer);
 
 	if (!LIST_EMPTY(&buffer->callbacks))
 		evbuffer_remove_all_callbacks(buffer);
 
-	if (cb) {
-		struct evbuffer_cb_entry *ent =
-		    evbuffer_add_cb(buffer, NULL, cbarg);
-		if (!ent) {
-			EVBUFFER_UNLOCK(buffer);
-			return -1;
-		}
-		ent->cb.cb_obsolete = cb;
-		ent->flags |= EVBUFFER_CB_OBSOLETE;
-	}
+	if (ent)
+		LIST_INSERT_HEAD(&buffer->callbacks, ent, next);
 	EVBUFFER_UNLOCK(buffer);
 	return 0;
 }
